@@ -491,9 +491,9 @@ def run(ctx):
     ctx.extra["sensitivity"] = sens
     if not quick:
         ctx.tlc("MofTextMC", "MofTextMCBig.cfg", timeout=3000,
-                label="repaired design, strings <= 6 symbols x 4 contexts")
+                label="repaired design, strings <= 6 symbols x 2 contexts")
         ctx.tlc("MofTextMC", "MofTextMCWide.cfg", timeout=3000,
-                label="repaired design, strings <= 5 symbols x 36 contexts")
+                label="repaired design, strings <= 5 symbols x 24 contexts")
 
     # -- 2. abstract inputs ------------------------------------------------------
     cases = []
@@ -508,14 +508,14 @@ def run(ctx):
         {"cfg": cfg, "s": "".join(st["s"]), "maxline": st["P"]["maxline"],
          "line_pos": st["lp0"], "text": "".join(st["f"]["out"])}
         for cfg, st in cex]
-    sims = simulate_vectors(ctx, 120 if quick else 1500)
+    sims = simulate_vectors(ctx, 120 if quick else 1000)
     for st in sims:
         cases.append({"gen": "fold", "src": "tlc-simulate",
                       "spec": fold_spec_from_st(st, rng)})
         if st["s"]:
             tlc_strings.append(list(st["s"]))
     ctx.extra["tlc_vectors_replayed"] = len(sims) + len(cex)
-    for i in range(150 if quick else 2000):
+    for i in range(150 if quick else 1500):
         cases.append({"gen": "fold", "src": "random",
                       "spec": random_fold_spec(rng, "model" if i % 2 else
                                                "real")})
@@ -528,11 +528,11 @@ def run(ctx):
     if quick:
         sweep = rng.sample(sweep, 60)
     strs += sweep
-    cases += string_units(rng, strs, 160 if quick else 2500)
-    cases += typed_units(rng, 1 if quick else 8)
+    cases += string_units(rng, strs, 160 if quick else 1500)
+    cases += typed_units(rng, 1 if quick else 5)
     cases += flavor_units(rng, 12 if quick else 120)
     cases += qualnull_units(rng)
-    cases += tree_cases(rng, 150 if quick else 2500)
+    cases += tree_cases(rng, 150 if quick else 1500)
 
     # -- 3. real code + TLC verdicts -----------------------------------------------
     comp = H.Comp()
